@@ -8,14 +8,14 @@ def instances():
     out = []
     for kind in range(6):
         for cl in range(6):
-            out.append(Inst(id="c07.begin.k%d.c%d" % (kind, cl), props=["C07", "C15", "C14", "C01"], harness="h_c07.cpp", entry="c07_begin", tus=TUS,
+            out.append(Inst(id="c07.begin.k%d.c%d" % (kind, cl), props=["C07", "C15", "C14", "C06", "C01"], harness="h_c07.cpp", entry="c07_begin", tus=TUS,
                             defs=["VX_KIND=%d" % kind, "VX_CL=%d" % cl], stubs=FMT_STUBS + CTX_STUBS + CONTAINER_STUBS,
                             unwind=4, timeout=400, tier="quick", mem_gb=12,
                             bounds="raised kind and clause list are instance parameters (6 kinds x 6 clause lists of <= 2 clauses)",
                             inputs="whether the selected handler itself raises; whether the block is nested in another"))
-    QR = {(1, 2, "0040"), (2, 2, "4000"), (1, 1, "0004"), (1, 2, "0100"), (1, 2, "3000"), (1, 2, "0000")}
+    QR = {(1, 2, "0040"), (2, 2, "4000"), (1, 1, "0004"), (1, 2, "0100"), (1, 2, "3000"), (1, 2, "0000"), (1, 2, "0005"), (1, 1, "0005")}
     for lo, li in ((1, 1), (1, 2), (2, 2), (2, 3), (1, 3)):
-        for acts in ("0000", "0100", "0010", "2000", "3000", "0003", "4000", "0400", "0040", "0004", "0140"):
+        for acts in ("0000", "0100", "0010", "2000", "3000", "0003", "4000", "0400", "0040", "0004", "0140", "0005"):
             out.append(Inst(id="c07.run.l%d%d.a%s" % (lo, li, acts), props=["C07", "C06", "C01"], harness="h_run.cpp", entry="c07_run", tus=CORE_TUS,
                             defs=["VX_LO=%d" % lo, "VX_LI=%d" % li, 'VX_ACTS="%s"' % acts],
                             stubs=FMT_STUBS + CTX_STUBS + CONTAINER_STUBS, unwind=6, unwindset=EMPTY_DECL_UNWIND, timeout=600, quick_also=["C06"] if (lo, li, acts) in QR else [],
